@@ -109,7 +109,8 @@ def from_json(case):
     cfg = dict(c["cfg"])
     for k in ("j_kin_scaling_param_axes",):
         if k in cfg:
-            cfg[k] = np.array(cfg[k])
+            v = cfg[k]
+            cfg[k] = [np.array(a) for a in v] if (len(v) and isinstance(v[0], (list, tuple))) else np.array(v)
     if "j_kin_scaling_grid_list" in cfg:
         cfg["j_kin_scaling_grid_list"] = [np.array(g) for g in cfg["j_kin_scaling_grid_list"]]
     c["cfg"] = cfg
